@@ -76,7 +76,11 @@ def _c09_ok(res, ti, oi, pos) -> bool:
         return False
     c = cols[pos]
     written, ttext, tsize = TYPES[ti]
-    if c["name"] != "k" or squeeze(c["type"]) != squeeze(ttext) or c["size"] != tsize:
+    if c["name"] != "k" or c["size"] != tsize:
+        return False
+    # <...> types: inner commas are re-spaced by the parser, compared blank-insensitively;
+    # every other type (incl. two-word types and [] suffixes) must come back verbatim
+    if (squeeze(c["type"]) != squeeze(ttext)) if "<" in written else (c["type"] != ttext):
         return False
     if c["type"].count("<") != c["type"].count(">") or c["type"].count("[") != c["type"].count("]"):
         return False
